@@ -1,11 +1,13 @@
 """C02 finality."""
 from props import simcommon
 HARNESS = ["sim"]
-ASSUMPTIONS = ["in-memory store (pointer-shared blocks); the Badger DB copy is covered by C16/C11",
+ASSUMPTIONS = ["model: in-memory store (pointer-shared blocks); the Badger DB copy is covered by C16/C11. Flavour latesigs evaluates the oracle "
+               "(consecutive indexes, store and database copy = deliveries, LastBlockIndex = highest delivered) on a BadgerStore node with "
+               "cache 100 after > 100 blocks and late signatures for evicted blocks; that node is not model-compared",
                "HTTP service serialisation is not modelled (it only calls Store.GetBlock)"]
 def run(ctx):
     cov, findings, diffs = None, [], []
-    for fl in ("static", "dyn"):
+    for fl in ("static", "dyn", "latesigs", "split", "splitfaults"):
         res = simcommon.run(ctx, fl)
         f, d = simcommon.findings_for(res, "C02", ["d", "g", "st", "I"])
         findings += f; diffs += d
@@ -15,5 +17,5 @@ def run(ctx):
         else:
             cov["evaluations"] += c["evaluations"]; cov["distinct_nontrivial"] += c["distinct_nontrivial"]
             cov["histories"] += c["histories"]; cov["traces_validated_against_impl"] += c["traces_validated_against_impl"]
-            cov["samples"] += c["samples"][:1]; cov["histogram_" + fl] = c["histogram"]
+            cov["samples"] += c["samples"][:1]; cov["histogram_" + fl] = c["histogram"]; cov["distribution_" + fl] = c["distribution"]
     return dict(findings=findings, coverage=cov, corr_diffs=diffs)
